@@ -3,14 +3,14 @@
    oracle that judges the implementation is itself an equivalence / a strict total order per
    orderable kind / a hash that is exactly the quotient by equality.
    Pairs and triples range over ALL abstract values (numbers, strings, bools, None, tuples,
-   lists); the relations are the matrices computed once in Coherence.tla.                    *)
+   lists, structs, dicts, sets, ranges); the relations are the matrices computed once in Coherence.tla.                    *)
 EXTENDS Coherence
 
 CONSTANT TStep                     \* third members of triples: every TStep-th value (1 = all)
 
 VARIABLES cph, c1, c2, c3          \* NB: names bound nowhere in the extended modules
 
-Orderable(ia, ib) == CmpM[ia][ib] # 2
+Orderable(ia, ib) == CmpM[ia][ib] \notin {2, 3}        \* 3: order not specified (two structs)
 
 PairLaws(ia, ib) ==
     /\ EqM[ia][ia]                                                  \* reflexive (NaN = NaN, too)
@@ -19,7 +19,8 @@ PairLaws(ia, ib) ==
     /\ Orderable(ia, ib) => CmpM[ia][ib] = -CmpM[ib][ia]            \* antisymmetric; trichotomy: exactly one
     /\ Orderable(ia, ib) => (EqM[ia][ib] <=> CmpM[ia][ib] = 0)      \* order agrees with equality
     /\ EqM[ia][ib] => (HOK[ia] = HOK[ib])                           \* equal => both hashable or neither
-    /\ EqM[ia][ib] <=> (HC[ia] = HC[ib])                            \* the hash is the quotient by Eq
+    /\ (U[ia].v.t \notin {"dict", "set", "range"} /\ U[ib].v.t \notin {"dict", "set", "range"})
+          => (EqM[ia][ib] <=> (HC[ia] = HC[ib]))                    \* the hash is the quotient by Eq
     /\ (Kind(U[ia].v) = Kind(U[ib].v) /\ Kind(U[ia].v) \in {"num", "str", "bool"}) => Orderable(ia, ib)   \* total per kind
     /\ WellFormedV(U[ia].v)
 
